@@ -34,3 +34,24 @@ def applyZoneUpdates (grants : List (String × Nat)) (updates : List (String × 
   grants.map fun g => match updates.find? (·.1 == g.1) with | some u => (g.1, u.2) | none => g
 
 end Nri.TA
+
+/-! ### balloons policy: what `AllocateResources` / `pinCpuMem` / `allocMem` write to a container -/
+namespace Nri.BalloonsPin
+
+open Nri.TA (Field)
+
+/-- `AllocateResources` returns before anything is done for a container that preserves its CPU
+resources (annotation) or matches a `preserve` rule of the configuration; otherwise `pinCpuMem`
+writes the cpuset and cpu.shares iff CPU pinning is on, and the memory set iff memory pinning is on
+for the balloon type (type-level setting overrides the policy-level one) and the container does
+not preserve its memory resources -/
+def allocateWrites (cpuPreserve ruleMatch pinCPU : Bool) (pinMemPolicy : Bool) (pinMemType : Option Bool) (memPreserve : Bool) : List Field :=
+  if cpuPreserve || ruleMatch then [] else
+  (if pinCPU then [Field.cpus, Field.shares] else []) ++
+  (if pinMemType.getD pinMemPolicy then (if memPreserve then [] else [Field.mems]) else [])
+
+/-- `allocMem`'s loop over the allocator's zone updates for OTHER containers: a container that preserves
+its memory resources is skipped -/
+def updateWrites (memPreserve : Bool) : List Field := if memPreserve then [] else [Field.mems]
+
+end Nri.BalloonsPin
